@@ -57,6 +57,12 @@ CHECKS['C07'] = ('exploration',
     'Selectors only - no symbolic cell values (numpy/schedula cannot carry proxies): exploration, not proof; histories <= 3 (statement: 8); dictionary-built models of three families. ' + TB,
     'DESIGN.md §3 C07')
 
+CHECKS['C08'] = ('exploration',
+    'CrossHair/z3 path exploration over boolean selectors (template, input list, output list, formula, argument values); the real compile() and calculate() run on every explored path and are compared',
+    'Bounded exhaustive exploration driven by the symbolic executor: for 3 template families x 8 input node lists (cells, defined name, formula cell) x 5 output lists x argument values from an 8-entry pool, ExcelModel.compile(inputs, outputs)(*vals) equals calculate(inputs=..., outputs=...) on two successive calls; 12 single formulas compiled alone take their arguments in inputs-mapping order and equal the formula with the 8^3 argument triples written in as literals.',
+    'Selectors only - pool values, not every argument tuple: exploration, not proof. ' + TB,
+    'DESIGN.md §3 C08')
+
 NA = {
     'C15': 'the dependency closure is computed over openpyxl worksheets read from .xlsx files while mutating the schedula dispatcher; neither can be given a symbolic state (DESIGN §4)',
     'C16': 'placement is done by openpyxl range iteration zipped with np.ravel and compared by re-reading files: I/O and third-party C code, no encodable kernel (DESIGN §4)',
